@@ -381,16 +381,22 @@ def normalize (env : Env) : Nat → RecN
   | 0, _, _, _ => .error .fuel
   | n + 1, ctx, schema, doc => N.normalizeMapping env (normalize env n) ctx schema doc
 
-/-- `validate(doc, update=upd, normalize=True)`: normalization, then validation of
-    the normalized document on the same instance (`_is_normalized` set) -/
-def validateN (env : Env) (t : Tables) (fuel : Nat) (ctx : Ctx) (schema : Val) (doc : List (Key × Val))
-    (upd : Bool) : M (List (Key × Val) × List Err) := do
+/-- `validate(doc, update=upd, normalize=True)` on an instance whose error list is
+    `pre` and whose `_unrequired_by_excludes` is `unreq0` after `__init_processing`:
+    normalization, then validation of the normalized document on the same instance
+    (`_is_normalized` set) -/
+def validateNS (env : Env) (t : Tables) (fuel : Nat) (ctx : Ctx) (schema : Val) (doc : List (Key × Val))
+    (upd : Bool) (pre : List Err) (unreq0 : List Key) : M (List (Key × Val) × List Err) := do
   let (m, nerrs) ← normalize env fuel ctx schema doc
   let ctx' := { ctx with cfg := { ctx.cfg with isNormalized := true } }
   match fuel with
   | 0 => .error .fuel
   | f + 1 =>
-    let errs ← V.validateMapping env t (validate0 env t f) ctx' schema (.dict m) upd nerrs
+    let errs ← V.validateMapping env t (validate0 env t f) ctx' schema (.dict m) upd (pre ++ nerrs) unreq0
     pure (m, errs)
+
+def validateN (env : Env) (t : Tables) (fuel : Nat) (ctx : Ctx) (schema : Val) (doc : List (Key × Val))
+    (upd : Bool) : M (List (Key × Val) × List Err) :=
+  validateNS env t fuel ctx schema doc upd [] []
 
 end Cerberus
